@@ -361,7 +361,9 @@ class Gen:
 
     def stmt(self, sc, depth, in_loop):
         r = self.rng
-        choices = ["pop", "assert"]
+        choices = ["pop", "assert", "assertc"]
+        if not sc.get("old_versions"):
+            choices += ["assertm"]
         if sc["vars"]:
             choices += ["store"] * 4
         if sc["bvars"]:
@@ -391,6 +393,10 @@ class Gen:
             return ["pop", self.expr(sc)]
         if k == "assert":
             return ["assert", self.expr(sc)]
+        if k == "assertc":
+            return ["assertc", self.expr(sc), "c11 why %d" % r.randrange(100)]
+        if k == "assertm":
+            return ["assertm", [self.expr(sc, 2) for _ in range(r.randint(2, 3))], r.choice([None, "c11 all of them"])]
         if k == "store":
             return ["store", r.choice(sc["vars"]), self.expr(sc)]
         if k == "storeb":
